@@ -155,12 +155,22 @@ class StepMonitor:
     def violate(self, oracle, detail):
         self.out.append({"oracle": oracle, "detail": "growth step %d: %s" % (self.steps, detail)})
 
+    # per-step snapshots cost O(molecule) each; beyond this many steps of one sample() only the step count and the
+    # fragment drawn are recorded and the post-hoc oracles judge the finished molecule
+    FULL_STEPS = 250
+
     def before(self, molecule):
+        if self.steps >= self.FULL_STEPS:
+            return None
         return {"nodes": {n: (list(molecule.nodes[n].get("fragid", [])), _bonding_of(molecule, n)) for n in molecule.nodes},
                 "edges": {frozenset(e) for e in molecule.edges}}
 
     def after(self, snap, molecule, fragname):
         self.steps += 1
+        if snap is None:
+            self.trajectory.append((fragname, None, None))
+            self.probes["steps_not_snapshotted"] += 1
+            return
         new_nodes = [n for n in molecule.nodes if n not in snap["nodes"]]
         template = self.templates.get(fragname)
         if template is None:
